@@ -41,6 +41,8 @@ pub fn run(engine: &str, ctx: &Ctx, rep: &mut Report) -> bool {
         "c19" => c17::run_c19(ctx, rep),
         "c18ref" => c18::run_ref(ctx, rep),
         "c18" => c18::run(ctx, rep),
+        "fuzzcorpus" => crate::fuzzbridge::emit_corpus(ctx, rep),
+        "fuzzreplay" => crate::fuzzbridge::replay(ctx, rep),
         _ => return false,
     }
     true
